@@ -216,8 +216,11 @@ class Terminal(Service, discriminator="terminal"):
             command: str = request[1]["command"]
             remote_connection = self._get_connection_from_ip(ip_address=ip_address)
             if remote_connection:
+                self._last_response = None  # an answer received earlier must not be reported for this command
                 remote_connection.execute(command)
-                return self.last_response if not None else RequestResponse(status="failure", data={})
+                if self.last_response is not None:
+                    return self.last_response
+                return RequestResponse(status="failure", data={"reason": "No response to remote command."})
             return RequestResponse(
                 status="failure",
                 data={"reason": "Failed to execute command."},
